@@ -174,7 +174,9 @@ def gen_single_cases(tier, rng, emphasis):
         devs = slevel.gen_devs(rng, cfg)
         speed = rng.choice([(1, 1), (1, 1), (2, 1), (1, 2)])
         stim = gen_stim(rng, cfg, devs)
-        cases.append(dict(cfg=cfg, devs=devs, speed=speed, initial=rng.choice([0, 0, 2_000_000]), stim=stim))
+        # callbacks: also negative initial times, so that callback chains pass through (and fall due at) simulation time 0
+        initials = [0, 0, 2_000_000, -3_000_000_000, -700_000_000, -1_000_000_000] if emphasis == "callbacks" else [0, 0, 2_000_000]
+        cases.append(dict(cfg=cfg, devs=devs, speed=speed, initial=rng.choice(initials), stim=stim))
     return cases, n_ex
 
 
